@@ -29,7 +29,7 @@ EXTENDS Bits, Json, TLC
 
 CONSTANTS TName,        \* "Int8" | "UInt8" | "Word8"
           Op,           \* one operation name
-          Cross         \* BOOLEAN: cross-check rows against the relational judge
+          Cross         \* "all" | "some" | "none": rows cross-checked against the relational judge
 
 VARIABLES a, tt, bt
 
@@ -134,7 +134,11 @@ Init == tt = [nm \in {TName} |-> Full(TypeOf(nm))] /\ bt = BitTables /\ a \in Do
 Next == UNCHANGED <<a, tt, bt>>
 Spec == Init /\ [][Next]_<<a, tt, bt>>
 
+\* "some": the rows of the limits, of 0, +-1, 2 and every 16th row (quick tier); "all": every row
+CrossRow(x) == \/ Cross = "all"
+               \/ Cross = "some" /\ (x \in {Lo, Lo + 1, -1, 0, 1, 2, Hi - 1, Hi} \/ x % 16 = 5)
+
 RowOK == /\ Laws(a)
-         /\ (Cross => Agrees(a))
+         /\ (CrossRow(a) => Agrees(a))
          /\ PrintT(ToJson([t |-> TName, op |-> Op, a |-> a, v |-> Row(a)]))
 =============================================================================
